@@ -1318,7 +1318,9 @@ class TangentVector(PointPair):
         v2 = project_to_hyperboloid(self.point, other.normalized().vector)
 
         product = utils.apply_bilinear(v1, v2, self.minkowski)
-        return np.arccos(product)
+
+        # parallel unit vectors can have product 1 + epsilon
+        return np.arccos(np.clip(product, -1, 1))
 
     def point_along(self, distance):
         """Get a point in hyperbolic space along the geodesic specified by
